@@ -201,7 +201,7 @@ class TrackingVariant(Variant):
                 wantA, wantM = z3.Empty(NodeSeq), None
             else:
                 wantA, wantM = A0, ms0
-            tag = "C15:" if failed else ""
+            tag = "failure:" if failed else ""          # (counted for C15 and C16: the tracked state after a failing backend call)
             for c1, A1, ms1 in self.abstract(A, M.items, p):
                 cond = z3.And(c0, c1)
                 if wantM is None:
@@ -241,7 +241,10 @@ def variants(world, tier="quick", only=None):
                 TrackingVariant(world, "is_unsat", k=k)]
         for lv in (0, 1, 2):
             out.append(TrackingVariant(world, "push", lv, k=k))
-            out.append(TrackingVariant(world, "pop", lv, k=k))
+            if lv <= k:
+                # (pop(n) requires n levels: with fewer explicit marks the pre-condition is unsatisfiable and the variant
+                #  would be vacuous - the per-variant vacuity guard reports such variants)
+                out.append(TrackingVariant(world, "pop", lv, k=k))
     if only:
         out = [v for v in out if any(o in v.name for o in only)]
     return out
